@@ -1,17 +1,3 @@
-def _compare(rec):
-    # exact, except the bech32 round trip with a caller-supplied prefix: the model cannot tell whether the external
-    # crate accepts the prefix (it prints Q=?); the judge then requires "refused, or decodes to the same address"
-    i, m = rec["impl"].split(" "), rec["model"].split(" ")
-    if len(i) != len(m):
-        return False
-    for a, b in zip(i, m):
-        if b == "Q=?" and a.startswith("Q="):
-            continue
-        if a != b:
-            return False
-    return True
-
-
 def _nontrivial(rec):
     # non-trivial = the model produced an address (strict or embedded parse succeeded with a non-malformed address, or a
     # value was written and read back) or a Base58 text that decodes
@@ -21,7 +7,7 @@ def _nontrivial(rec):
 
 CFG = {
     "level": "proof",
-    "level_text": "Coq proofs (closed under the global context, bech32 crate law as an explicit premise) about an executable model of "
+    "level_text": "Coq proofs (closed under the global context, no premises about external code: the bech32 crate 0.7.3 is modelled and its round-trip law proved) about an executable model of "
                   "Address::to_bytes / from_bytes_internal_impl (strict and lenient) / accessors / to_bech32 prefix selection, "
                   "variable_nat_encode/decode, the Byron CBOR-in-CBOR codec with CRC-32 (incl. the cbor_event reader primitives it uses) "
                   "and the Base58 digit-array algorithm: round trips for ALL addresses with network id < 16, all u64 pointer fields, all "
@@ -30,8 +16,8 @@ CFG = {
                   "unterminated and overflowing var-nats, empty input; embedded decoding total and verbatim outside four narrow decidable "
                   "known classes, each refuted at full strength by a witness. The model is tied to the compiled code by an exact "
                   "differential run.",
-    "level_note": "Trusted: Coq kernel; the hand-written model (tied by correspondence only on the generated cases); the bech32 crate "
-                  "(round-trip law is a premise of C11_bech32; only the prefix selection is modelled); cbor_event's Deserializer is modelled "
+    "level_note": "Trusted: Coq kernel; the hand-written model (tied by correspondence only on the generated cases) - now including "
+                  "the model of the bech32 crate (coq/Addr/Bech32.v), so the former premise of C11_bech32 is a theorem; cbor_event's Deserializer is modelled "
                   "for the calls the Byron decoder makes (array/map/tag/unsigned_integer/bytes incl. chunked strings); allocation failure "
                   "for declared lengths between what the allocator grants and 2^63 is not modelled; extraction and the OCaml/Rust glue. "
                   "No axioms. Byron truncation is covered by the correspondence run, not by a theorem.",
@@ -40,10 +26,13 @@ CFG = {
                  "C11_strict_rejects_trailing", "C11_strict_rejects_truncation", "C11_strict_rejects_unterminated",
                  "C11_strict_rejects_overflow", "C11_strict_rejects_empty", "C11_varnat", "C11_varnat_canonical",
                  "C11_byron_roundtrip", "C11_byron_roundtrip_any_crc", "C11_crc_table_standard", "C11_base58",
-                 "C11_base58_empty_refuted", "C11_byron_base58", "C11_bech32", "C11_embedded_total", "C11_embedded_total_refuted",
+                 "C11_base58_empty_refuted", "C11_byron_base58", "C11_bech32", "C11_bech32_default_total", "C11_bech32_any_codec",
+                 "C11_bech32_codec_roundtrip", "C11_bech32_decode_encode", "C11_bech32_checksum_valid", "C11_bech32_polymod_linear",
+                 "C11_bech32_base32_roundtrip", "C11_bech32_rejects_mixed_case", "C11_bech32_rejects_bad_char",
+                 "C11_bech32_detects_one_wrong_symbol", "C11_bech32_detects_wrong_hrp_letter", "C11_embedded_total", "C11_embedded_total_refuted",
                  "C11_embedded_verbatim", "C11_embedded_verbatim_refuted", "C11_lenient_drops_trailing"],
     "allowed_axioms": [],
-    "compare": _compare,
+    "compare": "exact",
     "nontrivial": _nontrivial,
     "gen_timeout": 900,
     "rule": "cases: (dec) all 256 header bytes x total lengths 0..81 (thorough 0..120) with random hash bytes and var-nat shaped pointer "
@@ -55,10 +44,14 @@ CFG = {
             "ByronAddress::from_bytes and Withdrawals::from_bytes (RewardAddress); (enc) address values of every kind built through the "
             "API with networks 0..15 and above, key/script credentials, Rng::u64_edge pointer triples, Byron attribute combinations, "
             "default and arbitrary (valid and invalid) bech32 prefixes, Base58 for Byron; (b58/b58d) the Base58 codec on arbitrary bytes "
-            "with 0..5 leading zeros, the empty string, arbitrary text (hook H11); non-trivial = distinct case whose model result holds a "
+            "with 0..5 leading zeros, the empty string, arbitrary text (hook H11); (bech/bech5/bechd) the bech32 crate through the H12 "
+            "pass-throughs: every data length 0..100 (thorough 0..300) x the prefixes the library uses and arbitrary / upper-case / refused "
+            "ones (empty, mixed case, 84 characters, space, DEL, non-ASCII), arbitrary 5-bit symbols (padding rules of from_base32), 16 "
+            "kinds of damaged texts (one wrong symbol, foreign character, upper-cased, mixed case, truncated, separator removed, wrong "
+            "HRP letter, non-ASCII, inserted / swapped symbols, noise); for addresses the exact to_bech32 text is compared; non-trivial = distinct case whose model result holds a "
             "decoded (non-malformed) address or a decoded Base58 text",
     "trusted_base": [
-        "bech32 0.7.3 (external): C11_bech32 assumes decode(encode(hrp, data)) returns data; the run checks it on the generated addresses",
+        "bech32 0.7.3 is no longer trusted through a premise: coq/Addr/Bech32.v transcribes its encode / decode / check_hrp / polymod / ToBase32 / convert_bits (tables CHARSET, CHARSET_REV, GEN copied by script) and the run compares it with the crate (hook H12 pass-throughs, /repo bb0b0ab)",
         "cbor_event 2.4.0 Deserializer behaviour for array/map/tag/unsigned_integer/bytes as transcribed in coq/Addr/Byron.v (rd_len, rd_arg, rd_bytes, rd_chunks)",
         "the header table classify_header in coq/Addr/Shelley.v is the transcription of shelley.cddl's address header bits",
         "the harness builds canonical Byron bytes itself (the library has no constructor from parts) and describes Byron values through to_bytes / attributes() / byron_address_kind()",
